@@ -9,7 +9,10 @@
    object, the two public counts), which must be the model's.
    All variants of the model in Variants (sets of repairs, see Ssdp!AllFix) run side by side; each prints one verdict
    per scenario: ACCEPT (with the properties the history violates in that variant and whether a memory error was
-   reached) or REJECT (line and reason).  A variant that reached a memory error accepts whatever follows. *)
+   reached) or REJECT (line and reason).  A variant that reached a memory error accepts whatever follows.
+   Where a repair has two equally good shapes (destroy deleting from the end or from the front; dev_add deleting its
+   timer on the error path or growing the array first) the step is nondeterministic: a variant ACCEPTS a scenario
+   when one of its branches does (the rig takes the disjunction of the verdicts of one variant). *)
 EXTENDS Ssdp, Json, IOUtils
 CONSTANTS VariantFamily      \* "core" : AllFix, {}, AllFix minus one; "all" : every subset
 Tr == ndJsonDeserialize(IOEnv.TRACE)
@@ -39,14 +42,16 @@ RetStep(r0, p, e, op, rc) ==
   ELSE IF ~LedgerOk(r0, e) THEN Rej("ledger after " \o op \o " differs; the model has " \o LedgerStr(r0))
   ELSE Ok(r0, Tail(p))
 
-Step(r0, p, e) ==
+(* alt: the other admissible shape of a repair (order of deletions in destroy, dev_add growing the array first) *)
+Step(r0, p, e, alt) ==
   IF r0.crashed THEN Ok(r0, << >>)
   ELSE IF e.e \in Inputs /\ p # << >> THEN Rej("the model expects the output " \o Exp(p) \o " before the next input")
   ELSE
   CASE e.e = "dev_add" ->
          IF e.d \notin Devs \/ ~r0.alive \/ r0.dev[e.d].used \/ e.ver > 65535 THEN Rej("scenario outside the model")
-         ELSE LET x == DevAdd(Clear(r0), e.d, [uuid |-> e.uuid, dom |-> e.dom, type |-> e.type, ver |-> e.ver, boot |-> e.boot,
-                                                conf |-> e.conf, age |-> e.age, ann |-> e.ann])
+         ELSE LET pp == [uuid |-> e.uuid, dom |-> e.dom, type |-> e.type, ver |-> e.ver, boot |-> e.boot,
+                         conf |-> e.conf, age |-> e.age, ann |-> e.ann]
+                  x == IF alt THEN DevAddAlt(Clear(r0), e.d, pp) ELSE DevAdd(Clear(r0), e.d, pp)
               IN Ok(Clear(x.s), x.s.out \o <<Ret("dev_add", x.rc)>>)
     [] e.e = "svc_add" ->
          IF ~DevOk(r0, e.d) \/ e.ver > 65535 THEN Rej("scenario outside the model")
@@ -84,7 +89,7 @@ Step(r0, p, e) ==
     [] e.e = "allocfail" -> Ok([r0 EXCEPT !.allocfail = e.k], << >>)
     [] e.e = "destroy" ->
          IF ~r0.alive THEN Rej("scenario outside the model")
-         ELSE LET r1 == Destroy(Clear(r0)) IN Ok(Clear(r1), r1.out \o <<Ret("destroy", "-")>>)
+         ELSE LET r1 == DestroyOrd(Clear(r0), IF alt THEN "fwd" ELSE "rev") IN Ok(Clear(r1), r1.out \o <<Ret("destroy", "-")>>)
     [] e.e = "firez" ->
          IF e.n # r0.zomb THEN Rej(ToString(e.n) \o " armed timers outlive their device / the object; the model has " \o ToString(r0.zomb))
          ELSE IF e.n > 0 THEN Ok(Crash(r0), << >>) ELSE Ok(r0, << >>)
@@ -136,7 +141,7 @@ Next ==
      THEN LET x == Create(r, [kind |-> e.kind, v4 |-> B(e.v4), v6 |-> B(e.v6), byebye |-> B(e.byebye), sp |-> e.sp, sockfail |-> e.sockfail])
           IN /\ r' = Clear(x.s) /\ pend' = x.s.out \o <<Ret("create", x.rc)>> /\ mode' = "run" /\ sc' = sc + 1
      ELSE IF mode = "skip" THEN UNCHANGED <<r, pend, mode, sc>>
-     ELSE LET x == Step(r, pend, e) IN
+     ELSE \E x \in {Step(r, pend, e, FALSE)} \cup (IF e.e \in {"destroy", "dev_add"} THEN {Step(r, pend, e, TRUE)} ELSE {}) :
           IF ~x.ok THEN /\ Verdict("REJECT", x.why) /\ mode' = "skip" /\ UNCHANGED <<r, pend, sc>>
           ELSE /\ r' = x.r /\ pend' = x.pend /\ UNCHANGED sc
                /\ IF e.e = "eos" THEN Verdict("ACCEPT", "") /\ mode' = "skip" ELSE mode' = "run"
